@@ -440,3 +440,53 @@ Definition run_op (s : schema) (table : string) (o : op) (selects omits : list s
   | OUpdateColumnsMap => guarded_update s model_key where_ids rows
       (assign_map s (select_and_omit s table selects omits false true) true p)
   end.
+
+(* ---- the value is a struct of ANOTHER type than the Model (ConvertToAssignments: isDiffSchema) ------------
+   `Model(&A{..}).Updates(B{..})` / UpdateColumns(&B{..}): updatingSchema = the schema of B.  The loop runs
+   over the MODEL's DBNames; each is looked up in B's schema (LookUpField: by column, then by field name); a
+   column B does not have is skipped; permission comes from the select map (computed from the model's schema:
+   Select / Omit / the model's tags) AND from B's own field (`field.Updatable`); zero-ness, the tracked
+   update-time setting and the key flag are B's.  Dest != Model, so a key field is an ordinary field. *)
+Definition assign_patch (s us : schema) (sm : sel_map * bool) (skip_hooks : bool) (p : payload)
+  : list assignment :=
+  flat_map (fun f =>
+    match lookup_field us (f_db f) with
+    | None => []
+    | Some g => assign_struct [g] sm skip_hooks false p
+    end) (col_fields s).
+
+(* ---- a handle that is used for several updates in a row (callbacks/update.go Update) ------------------------
+   The callback derives the SET clause from the value only when the statement carries none
+   (`if _, ok := Clauses["SET"]; !ok`), and removes the clause it derived when it returns
+   (`defer delete(db.Statement.Clauses, "SET")`); an empty derived list ends the callback at once.
+   [given] = the SET clause found on the statement; result = (the list that is sent, the clause left behind). *)
+Definition update_callback (given : option (list assignment)) (derived : list assignment)
+  : list assignment * option (list assignment) :=
+  match given with
+  | Some set => (set, Some set)
+  | None => (derived, None)
+  end.
+Fixpoint handle_set (given : option (list assignment)) (earlier : list (list assignment)) : option (list assignment) :=
+  match earlier with
+  | [] => given
+  | d :: r => handle_set (snd (update_callback given d)) r
+  end.
+
+(* one case of the checker: [vs] = the schema of the value's own type when it is not the model's; [earlier] =
+   the map updates (skip_hooks, payload) made before through the same handle *)
+Definition is_struct_update (o : op) : option bool :=      (* Some skip_hooks *)
+  match o with OUpdatesStruct => Some false | OUpdateColumnsStruct => Some true | _ => None end.
+Definition run_case (s : schema) (table : string) (o : op) (selects omits : list sitem)
+           (ps : list payload) (stored : list srow) (model_key : mkey) (where_ids : option (list Z))
+           (vs : option schema) (earlier : list (bool * payload)) : outcome :=
+  let sm := select_and_omit s table selects omits false true in
+  let p := match ps with p :: _ => p | [] => (0, []) end in
+  let rows := targeted stored model_key where_ids in
+  match handle_set None (map (fun q => assign_map s sm (fst q) (snd q)) earlier) with
+  | Some set => guarded_update s model_key where_ids rows set       (* a left-over SET clause is sent again *)
+  | None =>
+      match vs, is_struct_update o with
+      | Some us, Some skip => guarded_update s model_key where_ids rows (assign_patch s us sm skip p)
+      | _, _ => run_op s table o selects omits ps stored model_key where_ids
+      end
+  end.
